@@ -13,7 +13,7 @@ TP = "layout21protos::tetris::"
 
 EXPORT = [
     ("cell", [EXP, r"^&cell::Cell$"], r"Result<%sCell," % TP, [
-        (("name",), [(2, ("name",))], []), (("layout",), [(2, ("layout",))], []), (("abstract",), [(2, ("abs",))], [])]),
+        (("name",), [(2, ("name",))], [(2, ("layout", "name")), (2, ("abs", "name"))]), (("layout",), [(2, ("layout",))], []), (("abstract",), [(2, ("abs",))], [])]),
     ("layout", [EXP, r"^&layout::Layout$"], r"Result<%sLayout," % TP, [
         (("name",), [(2, ("name",))], []),
         (("outline", "x"), [(2, ("outline", "x"))], [(2, ("outline", "y"))]),
@@ -43,7 +43,7 @@ EXPORT = [
 ]
 IMPORT = [
     ("cell", [IMP, r"^&%sCell$" % TP], r"Result<cell::Cell,", [
-        (("name",), [(2, ("name",))], []), (("layout",), [(2, ("layout",))], []), (("abs",), [(2, ("abstract",))], [])]),
+        (("name",), [(2, ("name",))], [(2, ("layout", "name")), (2, ("abstract", "name"))]), (("layout",), [(2, ("layout",))], []), (("abs",), [(2, ("abstract",))], [])]),
     ("layout", [IMP, r"^&%sLayout$" % TP], r"Result<layout::Layout,", [
         (("name",), [(2, ("name",))], []),
         (("outline", "x"), [(2, ("outline", "x"))], [(2, ("outline", "y"))]),
